@@ -99,6 +99,21 @@ def make_method(m, k, coroutine):
     return f
 
 
+def make_plain_mw(idx):
+    """a middleware that is a plain callable returning the rest of the chain's awaitable: its synchronous part runs when the
+    chain is *called*, which in sequential mode must not happen before the previous element has been served"""
+    def mw(request, context, handler):
+        i = elem_of(request)
+        ALOG.append({'i': str(i), 'ev': {'e': 'enter', 'i': str(idx), 'm': request.method, 'ctx': S.ctx_label(context)}})
+
+        async def rest():
+            r = await handler(request, context)
+            ALOG.append({'i': str(i), 'ev': {'e': 'leave', 'i': str(idx)}})
+            return r
+        return rest()
+    return mw
+
+
 def make_mw(idx, k):
     async def mw(request, context, handler):
         i = elem_of(request)
@@ -128,7 +143,8 @@ def build(c):
     if cfg.get('max_batch_size') is not None:
         kwargs['max_batch_size'] = int(cfg['max_batch_size'])
     if cfg.get('middlewares'):
-        kwargs['middlewares'] = [make_mw(i, int(susp['mw0']) if i == 0 else 0) for i, _ in enumerate(cfg['middlewares'])]
+        kwargs['middlewares'] = [make_plain_mw(i) if (c.get('plain_mw') and i == 0 and not int(susp['mw0'])) else
+                                 make_mw(i, int(susp['mw0']) if i == 0 else 0) for i, _ in enumerate(cfg['middlewares'])]
     if cfg.get('handlers'):
         kwargs['error_handlers'] = {
             (None if e['key'] is None else int(e['key'])): [make_handler(None if e['key'] is None else int(e['key']), i,
@@ -255,7 +271,8 @@ def element(kind, call, i):
     else:
         e = {'jsonrpc': '2.0', 'method': kind, 'params': [i]}
     if call:
-        e['id'] = f'id{i}' if i % 2 else i + 100
+        # ids incl. the falsy ones (0 and '' are ids like any other)
+        e['id'] = {0: 0, 1: ''}.get(i, f'id{i}' if i % 2 else i + 100)
     return e
 
 
@@ -332,10 +349,14 @@ def generate(tier, rng):
                     c['susp'] = susp
                     c['concurrent'] = concurrent
                     c['schedule'] = sched
+                    if cfg.get('middlewares') and not concurrent and rng.random() < 0.6:
+                        # sequential mode, outermost middleware a plain callable (not an `async def`): its synchronous part runs
+                        # when the element's chain is called, i.e. only after the previous element has been served
+                        c['plain_mw'] = True
                     produced += 1
                     yield c
     # rejected batches and single requests under the scheduler
-    for text in ('[]', '[1]', json.dumps([element('echo', True, 0), element('echo', True, 0) | {'id': 100}]),
+    for text in ('[]', '[1]', json.dumps([element('echo', True, 0), element('echo', True, 1) | {'id': 0}]),
                  json.dumps(element('slow', True, 0)), json.dumps(element('fail_exc', False, 0))):
         c = D.case(text, configs[0])
         c['suite'] = NAME
